@@ -22,6 +22,18 @@ pub(crate) enum AnyArena {
     Lockfree(LockfreeArena),
 }
 
+#[cfg(lasso_verif)]
+impl AnyArena {
+    /// Verification hook (read-only): `(address, capacity, used)` of every block of the wrapped arena
+    pub(crate) fn verif_blocks(&self) -> alloc::vec::Vec<(usize, usize, usize)> {
+        match self {
+            Self::Arena(arena) => arena.verif_blocks(),
+            #[cfg(feature = "multi-threaded")]
+            Self::Lockfree(arena) => arena.verif_blocks(),
+        }
+    }
+}
+
 impl Debug for AnyArena {
     fn fmt(&self, f: &mut fmt::Formatter<'_>) -> fmt::Result {
         match self {
